@@ -130,9 +130,11 @@ def run_witness(prop, tier, seed, hints):
         flavours = (load_props_cfg().get(prop) or {}).get('witness_flavours') or ['']
     last = None
     for fl in flavours:
+        # "<flavour>:<ID>" = that flavour's cases of another property (e.g. "nightly:C18": the locked-container variants)
+        fl, _, alt = fl.partition(':')
         env = dict(os.environ, VERIF_WITNESS_FLAVOUR=fl)
         try:
-            r = subprocess.run([sys.executable, runner, prop, '--tier', tier, '--seed', str(seed)], env=env,
+            r = subprocess.run([sys.executable, runner, alt or prop, '--tier', tier, '--seed', str(seed)], env=env,
                                stdout=subprocess.PIPE, stderr=subprocess.PIPE, text=True, timeout=1500)
         except subprocess.TimeoutExpired:
             last = {'status': 'timeout', 'flavour': fl or 'stable'}
